@@ -5,4 +5,8 @@ Alpha9  == {" ", "\t", "-", ":", "q", "#", "a", "1", "."}
 Alpha8  == {" ", "-", ":", "q", "#", "a", "1", "e"}
 \* long random lines (simulation): no exponent letters, so every numeral is in range whatever its length
 AlphaSim == {" ", "\t", "-", ":", "q", "#", "a", "b", "1", "0", ".", "/", ","}
+AlphaZero == {" ", "-", ":", "a", "0", "."}
+AlphaCC == {" ", "-", ":", "#", ";", "a", "1", "."}
+\* with another comment character a name may begin with "#"; it still never begins or ends with a trim character
+NameShapeCC == LET r == Lex(line, TRUE) IN r.k \in {"entry", "head"} => r.name # <<>> /\ r.name[1] \notin TrimText /\ r.name[Len(r.name)] \notin TrimText
 =============================================================================
